@@ -41,6 +41,15 @@ func (rt *runtimeState) advance(atLeast *smt.Term) *smt.Term {
 	ex := rt.ex
 	c := ex.ctx
 	old := rt.clock()
+	if ex.cfg.PromptTime {
+		// discrete-event reading: reading the clock does not move it; an event moves it exactly
+		// to its due time (or leaves it, if that is already past)
+		if atLeast != nil {
+			rt.now = c.Ite(c.Cmp(smt.OpSLt, old, atLeast), atLeast, old)
+			ex.assume(c.Cmp(smt.OpSLt, rt.now, c.ConstS(64, 1<<62)))
+		}
+		return rt.now
+	}
 	n := ex.freshVar("clock", smt.BV(64), "int64")
 	ex.assume(c.Cmp(smt.OpSLe, old, n))
 	// the whole execution happens at clock readings below 2^62 ns (~146 years): keeps the
@@ -105,6 +114,15 @@ func (rt *runtimeState) runEvent(id int, from *Goroutine) {
 	ex := rt.ex
 	t := rt.timers[id-eventBase]
 	rt.fires++
+	if ex.cfg.PromptTime {
+		// the earliest armed timer fires first (ties in either order)
+		c := ex.ctx
+		for _, u := range rt.timers {
+			if u != t && u.armed {
+				ex.assumeFeasible(c.Cmp(smt.OpSLe, t.when, u.when))
+			}
+		}
+	}
 	now := rt.advance(t.when)
 	t.armed = false
 	switch {
@@ -199,6 +217,16 @@ func init() {
 	reg("time.Sleep", func(fr *frame, args []Value) Value {
 		clockOp(fr)
 		ex := fr.ex
+		if ex.cfg.PromptTime {
+			// block until a timer armed for now+d has fired
+			t := ex.rt.newTimer(args[0].(*smt.Term))
+			fired := false
+			t.onFire = func() { fired = true }
+			g := fr.gor()
+			ex.rt.visible(g, &pendingOp{kind: opSleepUntil, cond: func() bool { return fired }})
+			g.pending = nil
+			return nil
+		}
 		ex.rt.advance(ex.satAdd(ex.rt.clock(), args[0].(*smt.Term)))
 		return nil
 	})
